@@ -24,7 +24,6 @@ import (
 	"runtime"
 	"slices"
 	"strings"
-	"sync"
 	"time"
 	"unsafe"
 
@@ -407,30 +406,15 @@ func (server *SugarDB) updateKeysInCache(ctx context.Context, keys []string) (in
 		}
 	}
 
-	wg := sync.WaitGroup{}
-	errChan := make(chan error)
-	doneChan := make(chan struct{})
-
+	// Adjust the memory usage of every database while the store lock is still held.
+	// (Doing this in goroutines that can outlive this function would let them read and
+	// modify the store, the memory counter and the caches after the lock is released.)
 	for db, _ := range server.store {
-		wg.Add(1)
 		ctx := context.WithValue(ctx, "Database", db)
-		go func(ctx context.Context, database int, wg *sync.WaitGroup, errChan *chan error) {
-			if err := server.adjustMemoryUsage(ctx); err != nil {
-				*errChan <- fmt.Errorf("adjustMemoryUsage database %d, error: %v", database, err)
-			}
-			wg.Done()
-		}(ctx, db, &wg, &errChan)
-	}
-
-	go func() {
-		wg.Wait()
-		doneChan <- struct{}{}
-	}()
-
-	select {
-	case err := <-errChan:
-		return touchCounter, fmt.Errorf("adjustMemoryUsage error: %+v", err)
-	case <-doneChan:
+		if err := server.adjustMemoryUsage(ctx); err != nil {
+			return touchCounter, fmt.Errorf("adjustMemoryUsage error: %+v",
+				fmt.Errorf("adjustMemoryUsage database %d, error: %v", db, err))
+		}
 	}
 
 	return touchCounter, nil
